@@ -237,8 +237,14 @@ func (p *eparser) parseUnary() Expr {
 				p.fail("quantifier variable expected")
 			}
 			v := QVar{Name: n.text}
-			if p.peek().kind == "id" {
-				v.Type = p.next().text
+			// optional type: tokens up to "," or "::" (e.g. uint32, *list.Element, []byte)
+			for {
+				t := p.peek()
+				if t.kind == "id" || t.kind == "op" && (t.text == "*" || t.text == "[" || t.text == "]" || t.text == ".") {
+					v.Type += p.next().text
+					continue
+				}
+				break
 			}
 			vars = append(vars, v)
 			if p.isOp(",") {
